@@ -129,3 +129,20 @@ def combinator_pairs(P, exprs, built, seed, npairs, pool=None, singles=True):
 
 def any_model(m, cmd, members_list):
     return m.ask(["%s %d %s" % (cmd, len(ms), " ".join(hexs(e) for e in ms)) for ms in members_list])
+
+
+
+def conversion_routes(P, exprs, built):
+    """the same pattern obtained by into_owned, FromStr and any() of text / compiled / owned (harness `XR`):
+    [{k, expr, route, exh, root, pattern, depth, text}]"""
+    out = []
+    for k, line in zip(built, P.h.ask(["XR " + hexs(exprs[k]) for k in built])):
+        for item in line.split(" "):
+            if "=" not in item:
+                continue
+            name, rest = item.split("=", 1)
+            f = rest.split(":", 4)
+            if len(f) < 5:
+                continue
+            out.append({"k": k, "expr": exprs[k], "route": name, "exh": f[0], "root": f[1], "pattern": unhex(f[2]), "depth": f[3], "text": f[4]})
+    return out
